@@ -408,6 +408,4 @@ def _is_exchange(ctx):
 
 
 def _is_ping(sm, S, ctx):
-    """The ping function: a coroutine that builds a request with add_ping but never add_update_check/add_event."""
-    names = set(t.get("name") for _, t in ctx.bv.calls() if (t.get("callee") or "").startswith("request_builder::RequestBuilder"))
-    return "add_ping" in names and "add_update_check" not in names and "add_event" not in names
+    return lib.is_ping_body(ctx.bv)
